@@ -48,11 +48,24 @@ Fixpoint title_go (prev_sep : bool) (s : str) : str :=
   | b :: s' => (if prev_sep then upper_b b else b) :: title_go (negb (is_word_b b)) s'
   end.
 
-(* strings.Split(s, sep), including the empty separator (explode into runes; an invalid
-   byte becomes U+FFFD) *)
+(* strings.Split(s, sep), including the empty separator *)
+(* strings.Split(s, ""): one piece per rune, an invalid byte stays as it is *)
+Fixpoint rune_chunks (skip : nat) (cur : str) (s : str) : list str :=
+  match s with
+  | [] => match cur with [] => [] | _ => [rev cur] end
+  | b :: s' =>
+      match skip with
+      | S k => rune_chunks k (b :: cur) s'
+      | O => let '(_, w) := decode_rune s in
+             match cur with
+             | [] => rune_chunks (w - 1) [b] s'
+             | _ => rev cur :: rune_chunks (w - 1) [b] s'
+             end
+      end
+  end.
 Definition split_any (s sep : str) : list str :=
   match sep with
-  | [] => map encode_rune (runes s)
+  | [] => rune_chunks 0 [] s
   | _ => split_go sep 0 [] s
   end.
 
